@@ -117,6 +117,9 @@ pub fn gen_text_from_model(r: &mut Rng, m: &ModelData, max_len: usize) -> String
     let mut pieces: Vec<String> = vec![];
     pieces.extend(m.char_ngram_model.0.iter().map(|d| d.ngram.clone()));
     pieces.extend(m.dict_model.0.iter().map(|d| d.word.clone()));
+    // type n-grams realised by one representative character per type code
+    let rep = |t: u8| match t { 1 => '1', 2 => 'a', 3 => 'あ', 4 => 'ア', 5 => '漢', _ => 'é' };
+    pieces.extend(m.type_ngram_model.0.iter().map(|d| d.ngram.iter().map(|&t| rep(t)).collect::<String>()));
     for t in &m.tag_models {
         // tag tokens several times: they must be segmented as tokens to be tagged
         pieces.push(t.token.clone());
@@ -156,6 +159,13 @@ pub fn gen_model(r: &mut Rng, with_tags: bool) -> ModelData {
             cngrams.push(g);
         }
     }
+    // every third model: ALL proper suffixes of one n-gram of length 3..4 (a complete suffix chain of three or four entries
+    // -- the weight mergers walk such chains link by link)
+    if r.below(3) == 0 && cw >= 2 {
+        let l = 3 + r.below(2);
+        let g = rand_chars(r, l);
+        for k in 0..l { let sfx = g[k..].to_vec(); if !cngrams.contains(&sfx) { cngrams.push(sfx); } }
+    }
     let mut char_ngram_model = NgramModel(
         cngrams.iter().map(|g| NgramData {
             ngram: g.iter().collect::<String>(),
@@ -191,6 +201,11 @@ pub fn gen_model(r: &mut Rng, with_tags: bool) -> ModelData {
         if !g.is_empty() && !tngrams.contains(&g) {
             tngrams.push(g);
         }
+    }
+    if r.below(3) == 0 && tw >= 2 {
+        let l = 3 + r.below(2);
+        let g: Vec<u8> = (0..l).map(|_| 1 + r.below(6) as u8).collect();
+        for k in 0..l { let sfx = g[k..].to_vec(); if !tngrams.contains(&sfx) { tngrams.push(sfx); } }
     }
     let type_ngram_model = NgramModel(
         tngrams.iter().map(|g| NgramData {
@@ -231,7 +246,11 @@ pub fn gen_model(r: &mut Rng, with_tags: bool) -> ModelData {
         for t in tokens {
             let n_cat = r.below(4);
             // sometimes force exactly 8 (or 9) candidate scores: the boundary between the fixed and the variable layout
-            let shape: Vec<usize> = match r.below(6) {
+            // now and then a token with MANY categories and candidates: more than 255 candidate scores in all (score
+            // offsets and class counts leave the range of a byte)
+            let big = r.below(25) == 0;
+            let shape: Vec<usize> = match if big { 99 } else { r.below(6) } {
+                99 => (0..20).map(|c| if c % 5 == 4 { 1 } else { 18 }).collect(), // 16 x 18 = 288 scores: the last blocks start beyond 255
                 0 => vec![3, 3, 2],
                 1 => vec![8],
                 2 => vec![2, 1, 6, 0],
